@@ -15,6 +15,8 @@ CFGS = {
     "static-ni": {"profile": "release", "rustflags": "-Ctarget-feature=+aes,+ssse3"},
     # threefish without its default `cipher` feature but with `zeroize` (own package, own target dir: no feature unification)
     "tf-nocipher": {"profile": "dev", "package": "tfmon", "bin": "tfmon"},
+    # feature x cfg interaction: the compact software backends built WITHOUT the optional features
+    "compact-nofeat": {"profile": "release", "rustflags": COMPACT_FLAGS, "features": ["--no-default-features", "--features", "shadows"]},
     "nofeat": {"profile": "release", "features": ["--no-default-features", "--features", "shadows"]},
     "asan": {"profile": "dev", "nightly": True, "target": X64,
              "rustflags": "-Zsanitizer=address -Cforce-frame-pointers=yes",
@@ -34,7 +36,7 @@ CFGS = {
 }
 
 # built by `check setup` (everything the quick tier of any property uses)
-SETUP_CFGS = ["tf-nocipher", "dev", "rel", "devfast", "soft", "compact", "asan", "tsan", "miri-x64", "miri-s390x", "miri-i686"]
+SETUP_CFGS = ["tf-nocipher", "compact-nofeat", "nofeat", "dev", "rel", "devfast", "soft", "compact", "asan", "tsan", "miri-x64", "miri-s390x", "miri-i686"]
 
 
 def J(cfg, monitor, args=None, nshards=1, scale=1.0, detect="real", timeout=1800, **kw):
@@ -177,7 +179,8 @@ for p in ("C05", "C06", "C07", "C08", "C09", "C10"):
     eq, et = [], []
     if p in ("C07", "C08"):
         eq = [J("soft", "kat", ["--prop", p], nshards=2), J("compact", "kat", ["--prop", p], nshards=2)]
-        et = [J("soft", "kat", ["--prop", p], nshards=4), J("compact", "kat", ["--prop", p], nshards=4), J("asan", "kat", ["--prop", p], nshards=2, scale=0.1)]
+        et = [J("soft", "kat", ["--prop", p], nshards=4), J("compact", "kat", ["--prop", p], nshards=4), J("asan", "kat", ["--prop", p], nshards=2, scale=0.1),
+              J("compact-nofeat", "kat", ["--prop", p, "--no-shadow"], nshards=4), J("nofeat", "kat", ["--prop", p, "--no-shadow"], nshards=4)]
     if p == "C10":
         eq = [J("tf-nocipher", "tfmon")]
         et = [J("miri-i686", "kat", ["--prop", p, "--no-shadow", "--sample-mod", "8"], nshards=8, scale=0.0004, timeout=3000), J("tf-nocipher", "tfmon")]
@@ -378,12 +381,13 @@ PROPS["C14"] = {
 # ---- C15
 PROPS["C15"] = {
     "quick": [J("dev", "history", nshards=4), J("rel", "history", nshards=2), J("dev", "history", detect="off", nshards=2),
+              J("compact-nofeat", "history", ["--no-shadow"], nshards=2), J("nofeat", "history", ["--no-shadow"], nshards=2),
               J("dev", "threads", nshards=2), J("rel", "threads", nshards=2), J("dev", "threads", detect="off"),
               J("dev", "firstuse", nshards=2), J("rel", "firstuse", nshards=2), J("dev", "firstuse", detect="off"),
               J("tsan", "threads", scale=0.3), J("tsan", "firstuse", scale=0.3),
               # address-dependent fast paths of the big-endian software backends
               J("miri-s390x", "history", ["--filter", "kuznyechik::Kuznyechik#new"], nshards=2, scale=0.002, timeout=2400)],
-    "thorough": [J(c, "history", nshards=8) for c in ("dev", "rel", "soft", "compact")] + [J("dev", "history", detect="off", nshards=4)] +
+    "thorough": [J(c, "history", nshards=8) for c in ("dev", "rel", "soft", "compact", "compact-nofeat", "nofeat")] + [J("dev", "history", detect="off", nshards=4)] +
                 [J(c, "threads", nshards=4) for c in ("dev", "rel", "soft")] + [J("dev", "threads", detect="off", nshards=2)] +
                 [J("dev", "firstuse", nshards=8), J("rel", "firstuse", nshards=8), J("dev", "firstuse", detect="off", nshards=4),
                  J("tsan", "threads", nshards=4), J("tsan", "threads", detect="off", nshards=2), J("tsan", "firstuse", nshards=4, scale=0.2),
